@@ -893,6 +893,9 @@ class FnTranslator:
         t = self.ty(n)
         ch = kids(n)
         if t.is_struct():
+            # `T x{ prvalue_of_T }` : list-initialisation from a single element of the same class type is a copy
+            if len(ch) == 1 and self.ty(ch[0]).base == t.base and self.ty(ch[0]).ptr == 0:
+                return self.expr(ch[0])
             self.fail(n, 'aggregate initialisation of a struct')
         if len(ch) == 0:
             return '((%s)0)' % t.c()
